@@ -426,6 +426,24 @@ def inline_calls(t, facts, depth=2, _seen=()):
     if k == "call":
         args = [rec(a) for a in t[2]]
         c = t[4]
+        if callee_name(t) in ("call", "call_mut", "call_once") and len(args) >= 2:
+            # a local closure called by name (`let group = |n| caps.name(n).unwrap().as_str(); .. group("index")`): its result
+            # term with the parameters replaced by the arguments and the captured variables by their values
+            a0 = args[0]
+            hops = 0
+            while hops < 20 and a0[0] in ("ref", "deref", "cast", "var"):
+                hops += 1
+                a0 = a0[3] if a0[0] == "var" else a0[1]
+            tup = args[1]
+            while tup[0] == "var":
+                tup = tup[3]
+            cb = facts.body(a0[1]) if a0[0] == "closure" else None
+            if cb is not None and a0[1] not in _seen and tup[0] == "tuple":
+                mapping = {2 + i: e for i, e in enumerate(tup[1])}
+                for i, cap in enumerate(a0[2] or []):
+                    mapping[("upvar", i)] = cap
+                body_t = subst(du_of(cb).local_term(0, 26), mapping)
+                return ("call", t[1], args + [inline_calls(body_t, facts, depth - 1, _seen + (a0[1],))], t[3], c)
         tb = facts.body(t[1]) if c is not None else None
         if tb is not None and tb.in_repo() and tb.kind != "closure" and len(tb.blocks) <= 80 and t[1] not in _seen and tb.impl_trait is None:
             rt = du_of(tb).local_term(0, 26)
@@ -445,7 +463,9 @@ def inline_calls(t, facts, depth=2, _seen=()):
             for x in ([a] if a[0] == "closure" else [a[3]] if a[0] == "var" and isinstance(a[3], tuple) and a[3] and a[3][0] == "closure" else []):
                 cb = facts.body(x[1])
                 if cb is not None and x[1] not in _seen:
-                    extra.append(inline_calls(du_of(cb).local_term(0, 20), facts, depth - 1, _seen + (x[1],)))
+                    # the closure's result, its captured variables replaced by their values in this frame
+                    cmap = {("upvar", i): cap for i, cap in enumerate(x[2] or [])}
+                    extra.append(inline_calls(subst(du_of(cb).local_term(0, 20), cmap), facts, depth - 1, _seen + (x[1],)))
         return ("call", t[1], args + extra, t[3], c)
     if k in ("ref", "deref", "promoted"):
         return (k, rec(t[1]))
